@@ -6,6 +6,8 @@ import (
 	"strconv"
 	"testing"
 
+	"github.com/ChainSafe/gossamer/lib/runtime/storage"
+	"github.com/ChainSafe/gossamer/pkg/trie/inmemory"
 	"github.com/ChainSafe/gossamer/verifsim/kernel"
 )
 
@@ -43,4 +45,50 @@ func TestDebugRun(t *testing.T) {
 		fmt.Printf("OTHER %s\n  %s\n", o.Key(), o.Msg)
 	}
 	fmt.Println("probes", r.Probes, "faults", r.Faults)
+}
+
+// TestDefectProbes replays a few hand-written call sequences against the real
+// TrieState over the real in-memory trie and prints what comes back
+// (TXN_PROBES=1). Confirmations for defects that other defects mask in random runs.
+func TestDefectProbes(t *testing.T) {
+	if os.Getenv("TXN_PROBES") == "" {
+		t.Skip("TXN_PROBES not set")
+	}
+	mk := func() *storage.TrieState {
+		tr := inmemory.NewEmptyTrie()
+		_ = tr.PutIntoChild([]byte("c"), []byte("k"), []byte{1})
+		_ = tr.PutIntoChild([]byte("c"), []byte("k2"), []byte{2})
+		_ = tr.Put([]byte("c"), []byte{9})
+		return storage.NewTrieState(tr)
+	}
+	{
+		ts := mk()
+		ts.StartTransaction()
+		_ = ts.ClearChildStorage([]byte("c"), []byte("k"))
+		_ = ts.SetChildStorage([]byte("c"), []byte("k"), []byte{7})
+		inTx, _ := ts.GetChildStorage([]byte("c"), []byte("k"))
+		ts.CommitTransaction()
+		after, err := ts.GetChildStorage([]byte("c"), []byte("k"))
+		fmt.Printf("P1 child clear(k); child set(k,7); in tx: %v; after commit: %v err=%v   (want [7] [7])\n", inTx, after, err)
+	}
+	{
+		ts := mk()
+		ts.StartTransaction()
+		_ = ts.Delete([]byte("c")) // main key "c", a child trie is also named "c"
+		ts.CommitTransaction()
+		main := ts.Get([]byte("c"))
+		kid, err := ts.GetChildStorage([]byte("c"), []byte("k"))
+		fmt.Printf("P2 main delete('c') in tx, commit: main 'c' = %v (want nil), child c/k = %v err=%v (want [1])\n", main, kid, err)
+	}
+	{
+		ts := mk()
+		ts.StartTransaction()
+		_ = ts.DeleteChild([]byte("c"))
+		_ = ts.SetChildStorage([]byte("c"), []byte("new"), []byte{5})
+		k2, _ := ts.GetChildStorage([]byte("c"), []byte("k2"))
+		ts.CommitTransaction()
+		k2c, _ := ts.GetChildStorage([]byte("c"), []byte("k2"))
+		main := ts.Get([]byte("c"))
+		fmt.Printf("P3 kill child c; child set(new): c/k2 in tx = %v, after commit = %v (want nil nil); main 'c' = %v (want [9])\n", k2, k2c, main)
+	}
 }
